@@ -63,7 +63,7 @@ func runC13(c *core.Ctx) {
 		}
 		all := gen.Names(r, nrec+extra, namesCSV)
 		recipes, basics, unknown := all[:nrec], all[nrec:nrec+3], all[nrec+3:]
-		book := gen.RandomBook(r, gen.BookOpts{Recipes: nrec, Basics: 3, MaxDepth: depth, Exact: false, RecipeNames: recipes, BasicNames: basics})
+		book := gen.RandomBook(r, gen.BookOpts{Recipes: nrec, Basics: 3, MaxDepth: depth, Exact: false, RecipeNames: recipes, BasicNames: basics, Redeclare: r.Intn(6) == 0})
 		for ri := range book {
 			for ei := range book[ri].Ents {
 				if r.Intn(3) == 0 {
